@@ -101,6 +101,7 @@ func main() {
 	}
 	var sites []site
 	nsync := 0
+	nselects := 0
 	for _, p := range pkgs {
 		if len(p.Errors) > 0 {
 			die("package %s does not type-check: %v", p.PkgPath, p.Errors[0])
@@ -168,6 +169,16 @@ func main() {
 				}
 			}
 			rel, _ := filepath.Rel(*repo, name)
+			if !strings.HasSuffix(p.PkgPath, "/pkg/api") && !strings.HasSuffix(p.PkgPath, "/generate") {
+				rs, nsel, err := rewriteSelects(src, rel)
+				if err != nil {
+					die("%v", err)
+				}
+				if nsel > 0 {
+					src, changed = rs, true
+					nselects += nsel
+				}
+			}
 			for ei, e := range edits {
 				if e.File != rel {
 					continue
@@ -218,7 +229,7 @@ func (r *Adaptation) VerifServe(l net.Listener) error {
 		die("%v", err)
 	}
 	sort.Slice(sites, func(i, j int) bool { return sites[i].Pos < sites[j].Pos })
-	sb, _ := json.MarshalIndent(map[string]any{"map_range_sites": sites, "sync_imports_redirected": nsync}, "", " ")
+	sb, _ := json.MarshalIndent(map[string]any{"map_range_sites": sites, "sync_imports_redirected": nsync, "selects_rewritten": nselects}, "", " ")
 	os.WriteFile(filepath.Join(*out, "simgen-report.json"), sb, 0o644)
 
 	// (4) ttrpc scratch copy
@@ -270,12 +281,24 @@ func (r *Adaptation) VerifServe(l net.Listener) error {
 					}
 				}
 			}
+			if strings.HasSuffix(n, ".go") && !strings.HasSuffix(n, ".pb.go") {
+				rs, nsel, err := rewriteSelects(s, "ttrpc/"+n)
+				if err != nil {
+					die("%v", err)
+				}
+				if nsel > 0 {
+					s = rs
+					nselects += nsel
+				}
+			}
 			if err := os.WriteFile(filepath.Join(dst, n), []byte(s), 0o644); err != nil {
 				die("%v", err)
 			}
 		}
 	}
-	fmt.Printf("simgen: %d files in overlay, %d map-range sites, %d sync imports redirected\n", len(overlay), len(sites), nsync)
+	sb2, _ := json.MarshalIndent(map[string]any{"map_range_sites": sites, "sync_imports_redirected": nsync, "selects_rewritten": nselects}, "", " ")
+	os.WriteFile(filepath.Join(*out, "simgen-report.json"), sb2, 0o644)
+	fmt.Printf("simgen: %d files in overlay, %d map-range sites, %d sync imports redirected, %d selects rewritten\n", len(overlay), len(sites), nsync, nselects)
 }
 
 func addImport(f *ast.File, path string) {
